@@ -148,6 +148,7 @@ class TapeHooks:
             m.violate(st, "bytes-new-invariant", "Bytes::new: start/cursor are not the buffer start")
         if not (e[1][1] == (("E", 1),) and e[1][2] == 0):
             m.violate(st, "bytes-new-invariant", "Bytes::new: end pointer is not buffer start + len")
+        st.flags["w_start"] = s[1]
 
     def on_bytes_field_store(self, m, st, fname, loc, v):
         if fname == "cursor":
@@ -312,11 +313,13 @@ class TapeHooks:
 # =============================================================================================
 # canonicalisation
 # =============================================================================================
-def collect_syms(st):
+def collect_syms(st, with_wfacts=True):
     """All symbols mentioned by values, locations, facts."""
     pos_addrs = []  # (terms, const) of exact-able address expressions (coefsum == 1)
     syms = set()
     cells = []
+    diffs = st.flags.setdefault("$diffs", [])
+    del diffs[:]
 
     def f(v):
         k = v[0]
@@ -328,6 +331,8 @@ def collect_syms(st):
                     syms.add(s)
             if sum(c for s, c in v[1] if is_pos_sym(st, s)) == 1 and all(is_pos_sym(st, s) for s, c in v[1]):
                 pos_addrs.append((v[1], v[2]))
+            elif v[2] != 0 and len(v[1]) == 2 and all(is_pos_sym(st, s) for s, c in v[1]) and sorted(c for s, c in v[1]) == [-1, 1]:
+                diffs.append((v[1], v[2]))
         elif k == "cell":
             cells.append(v[1])
         return None
@@ -340,8 +345,9 @@ def collect_syms(st):
     for k_, v_ in st.rsyms.items():
         map_loc(v_[0], f)
         map_value(v_[2], f)
-    for (e, lane, c, t) in st.wfacts:
-        map_wexpr(e, f)
+    if with_wfacts:
+        for (e, lane, c, t) in st.wfacts:
+            map_wexpr(e, f)
     if st.mon is not None:
         st.mon.map_values(lambda v: (map_value(v, f), v)[1], lambda loc: (map_loc(loc, f), loc)[1])
         for s in st.mon.symbols():
@@ -530,17 +536,117 @@ def rename_value_syms(m, st):
     st.facts = nf
 
 
+def symbolise_counter(m, st):
+    """Header-count generalisation: at a loop head of the function that owns the header-array
+    iterator, the concrete number of slots handed out (>= 1) is replaced by the symbol N in that
+    frame, the heap, the monitor and the facts; afterwards N is re-based so that the iterator
+    position is exactly N."""
+    fr = st.frames[-1]
+    found = []
+
+    def look(v):
+        if v[0] == "prim" and v[1] == "itermut":
+            found.append(v)
+        return None
+
+    for l, v in fr.locals.items():
+        map_value(v, look)
+    if len(found) != 1:
+        return
+    pos = found[0][3]
+    pb = m.p.ptr_bytes * 8
+    if pos[0] == "int":
+        p_ = pos[1]
+        if p_ < 1:
+            return
+
+        def sub(v):
+            if v[0] == "int" and v[2] == pb and not v[3] and v[1] >= p_ and v[1] <= p_ + 1:
+                return ("sym", (("N", 1),), v[1] - p_, pb, False)
+            return None
+
+        for l in list(fr.locals):
+            fr.locals[l] = map_value(fr.locals[l], sub)
+        for name in list(st.heap):
+            st.heap[name] = map_value(st.heap[name], sub)
+        if st.mon is not None:
+            st.mon.map_values(lambda v: map_value(v, sub), lambda loc: map_loc(loc, sub))
+        nf = {}
+        for (a, b), lo in st.facts.items():
+            if isinstance(a, str) and a.startswith("CAP") and b is None:
+                nf[(a, "N")] = lo - p_
+            elif isinstance(b, str) and b.startswith("CAP") and a is None:
+                nf[("N", b)] = lo + p_
+            else:
+                nf[(a, b)] = lo
+        nf[("N", None)] = p_
+        st.facts = nf
+        return
+    if pos[0] == "sym" and pos[1] == (("N", 1),) and pos[2] != 0:
+        d = pos[2]
+
+        def sh(v):
+            if v[0] == "sym" and any(s_ == "N" for s_, c in v[1]):
+                c = dict(v[1])["N"]
+                return sym_norm(v[1], v[2] - c * d, v[3], v[4]) if v[3] else ("sym", v[1], v[2] - c * d, v[3], v[4])
+            return None
+
+        map_state(st, sh)
+        nf = {}
+        for (a, b), lo in st.facts.items():
+            if a == "N" and b != "N":
+                nf[(a, b)] = lo + d
+            elif b == "N" and a != "N":
+                nf[(a, b)] = lo - d
+            else:
+                nf[(a, b)] = lo
+        st.facts = nf
+
+
 def canonicalise(m, st):
     """Re-tokenise exact positions, drop unreferenced tokens, saturate gaps, fold the window,
     garbage-collect and renumber cells."""
+    # 0a. output fields already stored in the caller's Request/Response are write-only for the
+    #     parser: keep only the fact that they were assigned (monitors saw the stored value)
+    if "SELF" in st.heap and st.heap["SELF"][0] == "agg":
+        names = st.flags.get("self_fields", ())
+        nf = []
+        for i, v in enumerate(st.heap["SELF"][1]):
+            if v[0] in ("hist", "top") or (v[0] == "fat" and v[1][0] in ("D", "Z")):
+                nf.append(v)
+            else:
+                nf.append(("top", "stored:%s" % (names[i] if i < len(names) else i)))
+        st.heap["SELF"] = ("agg", tuple(nf))
+    # 0b. lengths of buffer slices as differences of position tokens
+    pbits = m.p.ptr_bytes * 8
+
+    def fatlen(v):
+        if v[0] == "fat" and v[1][0] == "B" and v[2][0] == "int" and v[2][1] > 0:
+            r = st.rel_pos(v[1][1], v[1][2])
+            if r is not None and r[2] == 1 and r[0] is not None and r[0] == r[1] and r[0] + v[2][1] <= 0:
+                a = insert_token_at(st, -r[0])
+                b = insert_token_at(st, -(r[0] + v[2][1]))
+                if a is not None and b is not None and a != b:
+                    return ("fat", ("B", ((a, 1),), 0), ("sym", tuple(sorted(((a, -1), (b, 1)), key=term_key)), 0, pbits, False), v[3])
+        return None
+
+    map_state(st, fatlen)
     # 0. abstract linear parts over consumed cells that no single-byte value refers to any more
     abstract_dead_cells(m, st)
+    symbolise_counter(m, st)
     # 1. fold the consumed-but-uncommitted window: cells no longer referenced by any live value
     #    are summarised (content mask, length bound, first-byte mask)
-    _, _, live_cells = collect_syms(st)
-    live_set = set(live_cells)
+    _, _, live_cells = collect_syms(st, with_wfacts=False)
+    live_set = set(live_cells) | set(st.tape)
     if st.mon is not None:
         live_set |= set(st.mon.cells())
+    # SWAR facts only matter while a cell of their block can still be looked at
+    from .lanes import leaf_of
+    st.wfacts = [wf for wf in st.wfacts if any(x[0] == "cell" and x[1] in live_set for x in leaf_of(wf[0])[1])]
+    for wf in st.wfacts:
+        for x in leaf_of(wf[0])[1]:
+            if x[0] == "cell":
+                live_set.add(x[1])
     nfold = 0
     for c in st.w_recent:
         if c in live_set:
@@ -571,6 +677,17 @@ def canonicalise(m, st):
             t = insert_token_at(st, -rel)
             if t is not None:
                 rewrite[(terms, const)] = (((t, 1),), 0)
+    for terms, const in set(map(tuple, st.flags.get("$diffs", []))):
+        pos = [s_ for s_, c in terms if c == 1][0]
+        neg = [s_ for s_, c in terms if c == -1][0]
+        if pos == "E":
+            continue
+        r = st.rel_pos(((pos, 1),), const)
+        if r is None or r[0] is None or r[0] != r[1] or r[0] > 0:
+            continue
+        t = insert_token_at(st, -r[0])
+        if t is not None and t != neg:
+            rewrite[(terms, const)] = (tuple(sorted(((t, 1), (neg, -1)), key=term_key)), 0)
     if rewrite:
         def f(v):
             if v[0] == "sym":
@@ -604,8 +721,13 @@ def canonicalise(m, st):
             st.cur_gap = (g1[0] + st.cur_gap[0], g1[1] and st.cur_gap[1])
             del st.gaps[i - 1]
         del st.chain[i]
-    # 4. saturate
-    st.gaps = [(g[0], g[1]) if g[0] <= K_SAT else (K_SAT, False) for g in st.gaps]
+    # 4. saturate: exact distances only matter between the committed start and the cursor;
+    #    older positions only need their order (and that they are distinct)
+    wsi = 0
+    ws = st.flags.get("w_start")
+    if ws is not None and ws[0] == "B" and len(ws[1]) == 1 and ws[1][0][1] == 1 and ws[2] == 0 and ws[1][0][0] in st.chain:
+        wsi = st.chain.index(ws[1][0][0])
+    st.gaps = [((min(g[0], 1), False) if i < wsi else ((g[0], g[1]) if g[0] <= K_SAT else (K_SAT, False))) for i, g in enumerate(st.gaps)]
     if st.cur_gap[0] > K_SAT:
         st.cur_gap = (K_SAT, False)
     # 5. rename tokens by chain position
@@ -698,7 +820,7 @@ def state_key(st):
     frames = tuple((fr.inst, fr.block, fr.stmt, tuple(sorted(fr.locals.items())), fr.dest, fr.ret_block) for fr in st.frames)
     heap = tuple(sorted(st.heap.items()))
     cells = tuple(sorted(st.cells.items()))
-    flags = tuple(sorted((k, v) for k, v in st.flags.items() if k not in ("w_start",)))
+    flags = tuple(sorted((k, v) for k, v in st.flags.items() if k not in ("w_start",) and not k.startswith("$")))
     w = (tuple(st.w_recent), st.w_first if isinstance(st.w_first, int) else None, st.flags.get("w_start"))
     return (frames, heap, cells, tuple(st.tape), st.eof, tuple(st.chain), tuple(st.gaps), st.cur_gap, w, tuple(sorted(st.env.items())),
             tuple(sorted(st.rsyms.items())), tuple(st.wfacts), st.mon.key() if st.mon is not None else None, flags)
@@ -840,7 +962,7 @@ class Explorer:
             while True:
                 try:
                     fr = st.frames[-1]
-                    if fr.stmt == 0 and fr.block in self.heads.get(fr.inst, ()):
+                    if (fr.stmt == 0 and fr.block in self.heads.get(fr.inst, ())) or st.flags.pop("summary_head", False):
                         if self.covered(st):
                             break
                     m.step_block(st)
@@ -869,7 +991,7 @@ class Explorer:
         return self
 
     def covered(self, st):
-        drop_dead_locals(self.live, st)
+        drop_dead_locals(self.live, st, self.p)
         canonicalise(self.m, st)
         if st.mon is not None:
             st.mon.at_loop_head(self.m, st)
@@ -1103,21 +1225,28 @@ def compute_liveness(prog):
     return out
 
 
-def drop_dead_locals(live, st):
+def drop_dead_locals(live, st, prog=None):
     for i, fr in enumerate(st.frames):
         li = live.get(fr.inst)
         if li is None:
             continue
         top = (i == len(st.frames) - 1)
+        extra = ()
         if top:
-            if fr.stmt != 0:
-                continue
             blk = fr.block
+            if fr.stmt != 0:
+                if prog is None:
+                    continue
+                # mid-block (summary head at the terminator): also keep what this block defined
+                extra = set()
+                for s_ in prog.insts[fr.inst]["body"]["blocks"][blk]["stmts"][: fr.stmt]:
+                    if s_["k"] == "assign":
+                        extra.add(s_["p"]["l"])
         else:
             blk = st.frames[i + 1].ret_block
             if blk is None:
                 continue
         keep = li[0][blk]
         for l in list(fr.locals):
-            if l not in keep:
+            if l not in keep and l not in extra:
                 del fr.locals[l]
